@@ -44,6 +44,22 @@ def run(ctx: Ctx) -> None:
     ctx.assume("task functions are deterministic", "cache_scope NONE and prov=False jobs are exempt")
     schedlab.suite(ctx, ON, n_random_progs=ctx.pick(4, 30), n_sim=ctx.pick(80, 1500),
                    n_random_hist=ctx.pick(40, 800), corrupt=_corrupt, tag="c06")
+    # third trace source: the repository's own tests, recorded with the real thread / process executors by the
+    # pytest plugin (harness/pytest_trace.py): every Scheduler.run must hand each call key to an executor once
+    mods = ctx.pick(["test_limits.py", "test_partial_task.py", "test_functools.py"],
+                    ["test_limits.py", "test_scheduler.py", "test_errors.py", "test_handle.py", "test_context.py",
+                     "test_functools.py", "test_tasks.py", "test_partial_task.py", "test_scheduler_subrun.py",
+                     "test_promise.py"])
+    traces, stats = schedlab.suite_test_traces(ctx, mods, timeout=ctx.pick(600, 3000))
+    ctx.note("suite_traces", stats)
+    ctx.require(stats["judged"] >= ctx.pick(20, 150), f"too few executions recorded from the test-suite: {stats}")
+    verdicts = schedlab.validate(ctx, traces, ["once"], "suite")
+    for t, (acc, pos, why) in zip(traces, verdicts):
+        ctx.count_impl_trace()
+        if not acc:
+            ctx.violation(f"execution recorded from the repository's test {t['hdr']['test']} rejected by clause "
+                          f"'{why}' at event {pos}: {t['evs'][pos - 1] if pos - 1 < len(t['evs']) else None}",
+                          {"test": t["hdr"]["test"], "clause": why, "events": t["evs"]})
 
 
 def replay(ctx: Ctx, rec: dict) -> None:
